@@ -17,6 +17,7 @@ import (
 	"crypto/sha1"
 	stdjson "encoding/json"
 	"fmt"
+	"io"
 	"math"
 	"math/big"
 	"reflect"
@@ -419,24 +420,79 @@ func canonJSON(b []byte, sortMembers bool) []byte {
 	return o.Bytes()
 }
 
-// genericDigest: the value encoding/json decodes the document to (numbers kept as literals), as a digest of its
-// standard re-encoding (object keys sorted by encoding/json).
+// genericDigest: the value encoding/json decodes the document to (numbers kept as literals, strings decoded), as a
+// digest of a canonical rendering in which the members of every object are sorted. Members are kept as a MULTISET:
+// two distinct Go map keys may sanitise to the same JSON key (an ill-formed byte and a genuine U+FFFD), and a
+// last-member-wins reading of such an object would depend on the iteration order of an unsorted map.
 func genericDigest(b []byte) string {
 	d := stdjson.NewDecoder(bytes.NewReader(b))
 	d.UseNumber()
-	var x any
-	if err := d.Decode(&x); err != nil {
+	c, err := genericCanon(d)
+	if err != nil {
 		return "INVALID"
 	}
-	if d.More() {
+	if _, err := d.Token(); err != io.EOF {
 		return "TRAILING"
 	}
-	o, err := stdjson.Marshal(x)
-	if err != nil {
-		return "UNENCODABLE"
-	}
-	h := sha1.Sum(o)
+	h := sha1.Sum([]byte(c))
 	return fmt.Sprintf("%x", h[:6])
+}
+
+func genericCanon(d *stdjson.Decoder) (string, error) {
+	t, err := d.Token()
+	if err != nil {
+		return "", err
+	}
+	switch v := t.(type) {
+	case stdjson.Delim:
+		switch v {
+		case '{':
+			var members []string
+			for d.More() {
+				k, err := d.Token()
+				if err != nil {
+					return "", err
+				}
+				ks, ok := k.(string)
+				if !ok {
+					return "", fmt.Errorf("key")
+				}
+				val, err := genericCanon(d)
+				if err != nil {
+					return "", err
+				}
+				members = append(members, strconv.Quote(ks)+":"+val)
+			}
+			if _, err := d.Token(); err != nil {
+				return "", err
+			}
+			sort.Strings(members)
+			return "{" + strings.Join(members, ",") + "}", nil
+		case '[':
+			var elems []string
+			for d.More() {
+				val, err := genericCanon(d)
+				if err != nil {
+					return "", err
+				}
+				elems = append(elems, val)
+			}
+			if _, err := d.Token(); err != nil {
+				return "", err
+			}
+			return "[" + strings.Join(elems, ",") + "]", nil
+		}
+		return "", fmt.Errorf("delim")
+	case string:
+		return strconv.Quote(v), nil
+	case stdjson.Number:
+		return string(v), nil
+	case bool:
+		return strconv.FormatBool(v), nil
+	case nil:
+		return "null", nil
+	}
+	return "", fmt.Errorf("token")
 }
 
 func stdEncode(x any, escapeHTML bool) ([]byte, error) {
